@@ -7,7 +7,14 @@ export GOFLAGS=-mod=mod GOPROXY=off GOSUMDB=off GOTOOLCHAIN=local
 wt="/tmp/confirm/$id"; rm -rf "$wt"; mkdir -p /tmp/confirm
 git -C /repo worktree add -q --detach "$wt" HEAD || exit 2
 log="$d/confirm.log"; : > "$log"
-demo="$(python3 -c "import json,sys;print(json.load(open('$d/meta.json'))['demo'])")"
+# the demonstration command from meta.json, normalised: the script applies the patch itself, so a leading
+# "git apply ..." is dropped, as is a trailing free-text remark in parentheses
+demo="$(python3 -c "
+import json,re
+s=json.load(open('$d/meta.json'))['demo']
+s=re.sub(r'git( -C \\S+)? apply [^&;]*(&&|;)', '', s)
+s=re.sub(r'\\s{2,}\\(.*\\)\\s*\$', '', s)
+print(s)")"
 run_demo() { # demo fails if its exit status is non-zero or its output has a Go test FAIL line
   out="/tmp/confirm/$id.demo"; ( cd "$d" && sh -c "$(printf '%s' "$demo" | sed "s#TREE#$wt#g")" ) >"$out" 2>&1; rc=$?
   cat "$out" >>"$log"; if grep -qE '^(FAIL|--- FAIL|exit status [1-9])' "$out"; then rc=1; fi; rm -f "$out"; return $rc; }
